@@ -1301,6 +1301,9 @@ fn rt_scenario(tok: &[&str], out: &mut Out, l: &str) {
 									bad = Some("decthread_repeated_or_reordered_frame");
 								} else if i > p + 2 || (!silent && i != p + 1) {
 									bad = Some("decthread_skipped_frames");
+									if std::env::var("KV_ORACLE_STATS").is_ok() {
+										eprintln!("rt slow: heard {} after {} (silence in between: {})", i, p, silent);
+									}
 								}
 							}
 							last = Some(i);
